@@ -240,7 +240,8 @@ def history(rnd, tm, Wrench, rec, nmax):
                         verdict_checked = False
                     enc = [11.0] + list(L) + t16(B) + [1.0 if rev else 0.0, 1.0 if prot else 0.0]
                 elif op == 'move':
-                    t = tm([rnd.uniform(-2, 2) for _ in range(3)] + [rnd.uniform(-1, 1) for _ in range(3)])
+                    rs_ = rnd.choice([1.0, 1.0, 2.6])       # also bases tilted past 90 degrees (wall / ceiling mounts)
+                    t = tm([rnd.uniform(-2, 2) for _ in range(3)] + [rnd.uniform(-rs_, rs_) for _ in range(3)])
                     Tm_ = t.gTM().copy()
                     sp.move(t)
                     enc = [3.0] + t16(Tm_)
